@@ -47,6 +47,9 @@ structure SyncReq where
   voidable : Bool := false
   /-- the request itself linked the remote (no link request before it) -/
   implicit : Bool := false
+  /-- keys changed by handlers that ran after the last settle before the request: their live events may have been
+  emitted (through the lane's small output buffer) only after the lane took the key snapshot -/
+  preChanged : List Nat := []
   deriving Repr
 
 structure Pair where
@@ -62,6 +65,7 @@ structure Pair where
   nfSeen : Nat := 0
   unlinkOps : List Nat := []             -- times of the explicit unlink requests not yet seen as `unlinked` frames
   implicitT0 : Option Nat := none        -- the remote became linked by a sync request (no link request before it)
+  implicitW0 : Nat := 0                  -- ... and the first line whose changes may have been emitted after its snapshot
   syncedAt : Nat := 0                    -- when the latest `synced` frame was read
   deriving Repr
 
@@ -75,6 +79,8 @@ structure Mon where
   keys : List Nat := []
   /-- a request was sent without waiting for the agent to settle and no `drain` has happened since -/
   unsettled : Bool := false
+  /-- the last line that ended with a settle (every lane event of the changes logged up to it has been emitted) -/
+  lastSettled : Nat := 0
   cmdSent : List (Nat × List Int) := []            -- per remote: commands sent to the command lane, in order
   cmdSeen : List Int := []                         -- handler invocations, in order
   pairs : List (Nat × Pair) := []
@@ -193,8 +199,12 @@ def Mon.frame (m : Mon) (f : Frame) : Mon × Option String :=
     else if !p.isOpen then (m, some "unlinked-without-open-link")
     else
       -- an explicit unlink answers the oldest outstanding unlink request: sync requests made before it are void
+      -- (the unlink overtook them: if they are answered at all, and no later request links the remote, they link it
+      -- implicitly themselves)
       match p.unlinkOps with
-      | _ :: rest => (m.setPair f.r f.lane { p with isOpen := false, unlinkOps := rest }, none)
+      | _ :: rest =>
+        let syncs := if p.linkedAt.isNone then p.syncs.map (fun sq => { sq with implicit := true }) else p.syncs
+        (m.setPair f.r f.lane { p with isOpen := false, unlinkOps := rest, syncs := syncs }, none)
       | [] => (m.setPair f.r f.lane { p with isOpen := false, syncs := p.syncs.map (fun sq => { sq with voidable := true }) }, none)
   | .synced =>
     if !p.isOpen then (m, some "synced-outside-link") else
@@ -222,7 +232,8 @@ def Mon.frame (m : Mon) (f : Frame) : Mon × Option String :=
         else
           -- a remote that linked implicitly by this very sync: keys that changed after the request are the known
           -- loss (the live update was broadcast before the link existed)
-          let changedSince (k : Nat) : Bool := ((alGet sq.allowed k).getD [none]).length > 1
+          let changedSince (k : Nat) : Bool :=
+            ((alGet sq.allowed k).getD [none]).length > 1 || sq.preChanged.contains k
           if (sq.implicit || p.implicitT0 == some sq.t0) && bad.all changedSince then
             (m.setPair f.r f.lane p', some "map-update-lost-during-implicit-link-sync")
           else (m.setPair f.r f.lane p', some "map-snapshot-inconsistent")
@@ -295,8 +306,8 @@ def Mon.final (m : Mon) : Option String :=
                   | .rem k' => if ikey k' = k then h.1 else acc
                   | .clr => h.1) 0
               match p.implicitT0 with
-              | some t0 =>
-                if diff.all (fun k => t0 ≤ lastChange k && lastChange k ≤ p.syncedAt) then
+              | some _ =>
+                if diff.all (fun k => p.implicitW0 ≤ lastChange k && lastChange k ≤ p.syncedAt) then
                   some "map-update-lost-during-implicit-link-sync"
                 else some "map-replica-diverged"
               | none => some "map-replica-diverged"
@@ -373,9 +384,11 @@ def Mon.httpCheck (m : Mon) (kind method : String) (n : Int) (hs ws : List Strin
   else some "unparsable-op"
 
 def Mon.step (m : Mon) (line : String) (out : String) : Mon × Option String :=
+  let prevSettled := m.lastSettled
   let m := { m with t := m.t + 1, httpGet := none }
   let ws := words out
   let burst := line.startsWith "!"
+  let m := if burst then m else { m with lastSettled := m.t }
   let settledBefore := !m.unsettled && !burst
   let m := { m with unsettled := (m.unsettled || burst) && line != "drain" }
   let line := if burst then (line.drop 1).toString else line
@@ -396,10 +409,16 @@ def Mon.step (m : Mon) (line : String) (out : String) : Mon × Option String :=
         let r := r.toNat?.getD 0; let l := laneId lane; let p := m1.pair r l
         if l = 4 then m1.setPair r l { p with nfExpected := p.nfExpected + 1 }
         else
+          let pre := (m1.mapHist.filter (fun h => h.1 > prevSettled)).foldl (fun (acc : List Nat) h =>
+            match h.2 with
+            | .upd k _ => acc ++ [ikey k]
+            | .rem k => acc ++ [ikey k]
+            | .clr => acc ++ m1.keys) []
           let sq : SyncReq := { t0 := m1.t, allowed := m1.curMap.map (fun e => (e.1, [some e.2])), allowedVal := [m1.curVal],
-                                implicit := p.linkedAt.isNone }
+                                implicit := p.linkedAt.isNone, preChanged := pre }
           m1.setPair r l { p with linkedAt := some (p.linkedAt.getD m1.t), syncs := p.syncs ++ [sq],
-                                  implicitT0 := if p.linkedAt.isNone then some m1.t else p.implicitT0 }
+                                  implicitT0 := if p.linkedAt.isNone then some m1.t else p.implicitT0,
+                                  implicitW0 := if p.linkedAt.isNone then prevSettled + 1 else p.implicitW0 }
       | ["unlink", r, lane] =>
         let r := r.toNat?.getD 0; let l := laneId lane; let p := m1.pair r l
         m1.setPair r l { p with linkedAt := none, implicitT0 := none,
